@@ -1228,7 +1228,8 @@ result_t NumberDataType::parseInput(const string inputStr, unsigned int* parsedV
           }
         } else {
           // parsed as signed 64 bit so that a negative or too large input is detected instead of wrapped around
-          long long unsignedValue = strtoll(str, &strEnd, 0);
+          // fixed width BCD (PIN) is printed with leading zeros, which must not be taken as octal prefix
+          long long unsignedValue = strtoll(str, &strEnd, hasFlag(FIX) && hasFlag(BCD) ? 10 : 0);
           if (errno == ERANGE || unsignedValue < 0LL || unsignedValue >= (1LL << m_bitCount)) {
             return RESULT_ERR_OUT_OF_RANGE;
           }
